@@ -84,8 +84,8 @@ def run(facts, rep, ctx):
         if any(op == "Lt" and truth for (op, c, truth) in classes):
             continue
         slots = [s for s in enc.emissions(p) if not (len(s) > 2 and s[2] == "merge-into-existing")]
-        if enc.emission_unknown:
-            unknown_emission = enc.emission_unknown
+        if enc.emission_unknown or any(s_[0][0] == "unknown" for s_ in slots):
+            unknown_emission = enc.emission_unknown or "a byte is stored at an index that is not recognised"
             continue
         n = len(slots)
         lo, hi = length_interval(classes, L)
